@@ -249,6 +249,27 @@ pub fn oracle(b: &[u8], obs: &mut Obs) -> Result<(), Fail> {
         let got = matches!(second, Some(Ok(_)));
         stream("stream second document", Tier::Full, got)?;
     }
+    // invalid UTF-8 INSIDE the first value: a hand-built deserializer has no trailing check, but what it
+    // returns must itself be valid, so such a value must be rejected by every decoding target
+    if !utf8 {
+        if let Ok(sum) = refjson::scan(b, 0, &mut refjson::NoSink) {
+            if std::str::from_utf8(&b[sum.start..sum.end]).is_err() {
+                let by = Bytes::copy_from_slice(b);
+                let routes: [(&'static str, bool); 6] = [
+                    ("Deserializer::from_slice(non-UTF-8 value).deserialize::<Value>", Deserializer::from_slice(b).deserialize::<Value>().is_ok()),
+                    ("Deserializer::from_json(&Bytes, non-UTF-8 value).deserialize::<Value>", Deserializer::from_json(&by).deserialize::<Value>().is_ok()),
+                    ("Deserializer::from_slice(non-UTF-8 value).deserialize::<serde_json::Value>", Deserializer::from_slice(b).deserialize::<serde_json::Value>().is_ok()),
+                    ("Deserializer::from_slice(non-UTF-8 value).deserialize::<String>", Deserializer::from_slice(b).deserialize::<String>().is_ok()),
+                    ("Deserializer::from_slice(non-UTF-8 value).deserialize::<Vec<String>>", Deserializer::from_slice(b).deserialize::<Vec<String>>().is_ok()),
+                    ("Deserializer::from_slice(non-UTF-8 value).deserialize::<BTreeMap<String,Value>>", Deserializer::from_slice(b).deserialize::<std::collections::BTreeMap<String, Value>>().is_ok()),
+                ];
+                for (route, got) in routes {
+                    judge(route, Tier::Full, got, false, b, &a)?;
+                }
+                judge("Deserializer::from_slice(non-UTF-8 value).deserialize::<OwnedLazyValue>", Tier::Skip, Deserializer::from_slice(b).deserialize::<OwnedLazyValue>().is_ok(), false, b, &a)?;
+            }
+        }
+    }
     Ok(())
 }
 
